@@ -510,6 +510,9 @@ class JGen(sg.Gen):
             arg = rng.choice([-1, -1, -2, -2, rng.randint(0, 5)])
         elif kind == K_PAR:
             arg = rng.choice(POOLS)
+            if rng.random() < 0.2:
+                # the consumer of each item runs a parallel join itself (on the same pool)
+                arg = 1024 + rng.choice([1, 1, 2, 3, 8])
         elif kind == K_GET:
             arg = anchor if (anchor is not None and rng.random() < 0.7) else self.some_handle()
         else:
@@ -520,6 +523,21 @@ class JGen(sg.Gen):
         op = (JOIN, payload)
         touched = sorted(used["ex"])
         return op, touched, sorted(used["cex"])
+
+    def wide_par_join(self):
+        """a parallel join over a bit set with one member in each of several hundred words (so that the producer can be
+        halved nine or ten times in one lineage) on a pool large enough to ask for that many splits"""
+        rng = self.rng
+        n = rng.randint(520, 700)
+        xs = sorted(64 * k + rng.randrange(64) for k in rng.sample(range(0, 1200), n))
+        members = [[M_BITS, len(xs)] + xs]
+        if rng.random() < 0.4:
+            ys = sorted(set(xs[::rng.choice([1, 2, 3])] + [64 * rng.randrange(1200) for _ in range(20)]))
+            members.append([M_BITS, len(ys)] + ys)
+        payload = [K_PAR, rng.choice([300, 512, 600]), len(members)]
+        for m in members:
+            payload += m
+        return (JOIN, payload)
 
     def observe(self, sids, slots=()):
         """make the effect of a mutating join visible"""
@@ -672,6 +690,27 @@ def pick_sids(rng, focus):
     return sids
 
 
+def hash_stress_history(rng):
+    """several thousand components in a hash-map storage, fetched and written through the mutable restricted view by a
+    parallel join on many threads, several times over: every item looks its own index up twice (get, then get_mut)
+    while other workers do the same for theirs"""
+    g = JGen(rng, "par")
+    sid = 3
+    g.register(sid)
+    n = rng.choice([1500, 3000])
+    g.hist.append((wg.CI, [n]))
+    g.created(n)
+    g.n0 = n
+    for h in range(n):
+        u, v = g.tok(sid)
+        g.hist.append((sg.INS, [sid, h, u, v]))
+    for _ in range(rng.randint(3, 6)):
+        g.hist.append((JOIN, [K_PAR, rng.choice([8, 16, 32]), 1, M_RESTR, sid, 1, 1, 0, rng.randint(1, 9), 0]))
+    g.hist.append((JOIN, [K_JOIN, -1, 1, M_READ, sid]))
+    g.hist.append((sg.DROPW, []))
+    return g.hist
+
+
 def join_history(rng, length, focus="join"):
     assert focus in FOCI
     g = JGen(rng, focus)
@@ -694,6 +733,8 @@ def join_history(rng, length, focus="join"):
     start = len(g.hist)
     p_join = {"join": 0.50, "par": 0.50, "restrict": 0.50, "changeset": 0.38}[focus]
     p_cs = {"join": 0.03, "par": 0.0, "restrict": 0.0, "changeset": 0.27}[focus]
+    if focus == "par" and rng.random() < 0.03:
+        g.hist.append(g.wide_par_join())
     while len(g.hist) - start < length:
         r = rng.random()
         if r < p_join:
